@@ -32,7 +32,7 @@ def mem_available_mb():
     return 8192
 
 
-def tlc(module, cfg_text, env=None, workers=8, heap_mb=2048, timeout=1800, extra=(), deadlock=False, simulate=None, mc_text=None):
+def tlc(module, cfg_text, env=None, workers=8, heap_mb=2048, timeout=1800, extra=(), deadlock=False, simulate=None, mc_text=None, stack_mb=64):
     """
     Run TLC on spec/<module>.tla with the given cfg text.  Returns dict(out, states, distinct,
     rc, wall).  The metadir and the cfg live in a fresh temp dir outside /repo and /verif.
@@ -56,7 +56,7 @@ def tlc(module, cfg_text, env=None, workers=8, heap_mb=2048, timeout=1800, extra
             target = os.path.join(tmp, module + '.tla')
             with open(target, 'w') as f:
                 f.write(mc_text)
-        cmd = ['java', '-XX:+UseParallelGC', '-Xmx%dm' % heap_mb, '-Xss16m', '-DTLA-Library=' + SPEC, '-cp', JAR, 'tlc2.TLC',
+        cmd = ['java', '-XX:+UseParallelGC', '-Xmx%dm' % heap_mb, '-Xss%dm' % stack_mb, '-DTLA-Library=' + SPEC, '-cp', JAR, 'tlc2.TLC',
                '-workers', str(workers), '-fpmem', '0.05', '-metadir', os.path.join(tmp, 'meta'),
                '-noGenerateSpecTE', '-config', cfg]
         if not deadlock:
@@ -246,7 +246,7 @@ def judge_blt(recs, fixed, workers=8, heap_mb=2048, timeout=900):
                 f.write(json.dumps(t, separators=(',', ':')) + '\n')
         nw = max(1, min(workers, len(recs)))
         cfg = 'INIT Init\nNEXT Next\nINVARIANT Judged\nCONSTANTS\n  NW = %d\n  FIXED = {%s}\n' % (nw, ', '.join('"%s"' % x for x in fixed))
-        res = tlc('TraceBlt', cfg, env={'TRACE_FILE': path}, workers=nw, heap_mb=heap_mb, timeout=timeout)
+        res = tlc('TraceBlt', cfg, env={'TRACE_FILE': path}, workers=nw, heap_mb=heap_mb, timeout=timeout, stack_mb=1024)   # files of 257 candidates recurse deeply
     finally:
         shutil.rmtree(tmp, ignore_errors=True)
     if res['out'].count('BLTDONE') != nw or res['distinct'] != len(recs):
